@@ -47,60 +47,6 @@ def encRes : Res → Sx
 def encBlocks (B : Blocks) : Sx :=
   .list (B.map fun (n, st) => .list [.str n, .list (st.map fun r => .str r.tpl)])
 
-/-! ### the two repairs the oracle tries when the specification and the model differ -/
-
-mutual
-partial def clearReqP : Piece → Piece
-  | .block n sc _ body => .block n sc false (clearReqL body)
-  | .forLoop x it body => .forLoop x it (clearReqL body)
-  | .ifc f body => .ifc f (clearReqL body)
-  | p => p
-partial def clearReqL (ps : List Piece) : List Piece := ps.map clearReqP
-end
-
-/-- drop the `required` modifier in every template of the chain but the root -/
-def clearNonRootRequired (chain : List Tpl) : List Tpl :=
-  match chain.reverse with
-  | [] => []
-  | root :: more => (more.map fun t => { t with body := clearReqL t.body }).reverse ++ [root]
-
-mutual
-/-- the blocks declared (outermost) inside a `for` body, without the loop around them -/
-partial def hoistP : Piece → List Piece
-  | .block n sc rq body => [.block n sc rq body]
-  | .forLoop _ _ body => hoistL body
-  | .ifc _ body => hoistL body
-  | _ => []
-partial def hoistL (ps : List Piece) : List Piece := (ps.map hoistP).flatten
-end
-
-mutual
-partial def unloopP : Piece → List Piece
-  | .forLoop _ _ body => hoistL body
-  | .ifc f body => [.ifc f (unloopL body)]
-  | p => [p]
-partial def unloopL (ps : List Piece) : List Piece := (ps.map unloopP).flatten
-end
-
-mutual
-partial def hasTopLoopBlockP : Piece → Bool
-  | .forLoop _ _ body => !(declsL body).isEmpty
-  | .ifc _ body => hasTopLoopBlockL body
-  | _ => false
-partial def hasTopLoopBlockL (ps : List Piece) : Bool := ps.any hasTopLoopBlockP
-end
-
-/-- in every non-root template of the chain, replace top-level `for` loops by the blocks they declare -/
-def unloopChildren (L : List Tpl) (chain : List Tpl) : List Tpl :=
-  let kids := chain.dropLast.map (·.name)
-  L.map fun t => if kids.contains t.name then { t with body := unloopL t.body } else t
-
-def nonRootRequired (chain : List Tpl) : Bool :=
-  chain.dropLast.any fun t => (declsL t.body).any (·.req)
-
-def childTopLoopBlock (chain : List Tpl) : Bool :=
-  chain.dropLast.any fun t => hasTopLoopBlockL t.body
-
 /-- `(inh-render hops fuel (tpl…) ((var value)…) main)` →
     `(ok (model spec verdict (chain names) blocks-after))` -/
 def handleRender : List Sx → Sx
@@ -124,21 +70,9 @@ def handleRender : List Sx → Sx
           Sx.ok (.list [encRes model, .atom "none", .atom "nojudge", names, blocks])
         else if spec == model then Sx.ok (.list [encRes model, encRes spec, .atom "agree", names, blocks])
         else
-          -- the model (= the code, if the correspondence holds) departs from the documentation: find out why
-          let r1 := nonRootRequired chain
-          let r2 := childTopLoopBlock chain
-          let spec' := if r1 then SpecInherit.renderChain fuel (clearNonRootRequired chain) vars else spec
-          let model' := if r2 then renderTemplate (unloopChildren L chain) hops fuel vars main else model
-          let keys : Option (List String) :=
-            if r1 && spec' == model then some ["required:declared-in-middle-template"]
-            else if r2 && spec == model' then some ["child:block-in-toplevel-loop-rendered"]
-            else if r1 && r2 && spec' == model' then
-              some ["required:declared-in-middle-template", "child:block-in-toplevel-loop-rendered"]
-            else none
-          let verdict : Sx := match keys with
-            | some ks => .list (.atom "finding" :: ks.map .str)
-            | none => .atom "unexplained"
-          Sx.ok (.list [encRes model, encRes spec, verdict, names, blocks])
+          -- the model (= the code, if the correspondence holds) departs from the documentation; `render_chain`
+          -- says this cannot happen for chains of the documented shape
+          Sx.ok (.list [encRes model, encRes spec, .atom "unexplained", names, blocks])
     | _, _, _, _ => Sx.bad
   | _ => Sx.bad
 
